@@ -22,6 +22,13 @@ def mc(ctx):
     ctx.tlc_mc("MC_Loc", "MC_Loc_3.cfg", key="MC_Loc 3 blocks x 0..2 instructions, all edge sets, all entries")
 
 
+def stream(path):
+    with open(path) as f:
+        for l in f:
+            if l.strip():
+                yield json.loads(l)
+
+
 def attach_sessions(results):
     """Make every rejection self-contained: add the descriptor of its program (the begin line)."""
     for r in results:
@@ -51,7 +58,7 @@ def validate(ctx, paths, nshards):
               "functions_with_duplicate_addresses": 0, "functions_with_index_gaps": 0, "self_loops": 0}
     sessions = 0
     for p in paths:
-        for e in ctx.read_ndjson(p):
+        for e in stream(p):
             kinds[e["ev"]] = kinds.get(e["ev"], 0) + 1
             if e["ev"] == "begin":
                 sessions += 1
@@ -78,8 +85,12 @@ def run(ctx):
     ctx.build(["c18"])
     mc(ctx)
     q = ctx.quick
-    paths = [ctx.record("c18", ["--mode", "random", "--n", 300 if q else 12000], "random.ndjson")]
-    validate(ctx, paths, 6 if q else 16)
+    if q:
+        jobs = [("c18", ["--mode", "random", "--n", 300], "random.ndjson")]
+    else:
+        jobs = [("c18", ["--mode", "random", "--n", 5000, "--salt", k], "random%d.ndjson" % k) for k in range(4)]
+    paths = ctx.record_many(jobs, parallel=4)
+    validate(ctx, paths, 6 if q else 4)
     ctx.extra["generator_bounds"] = {"functions_per_program": "1..3", "blocks_per_function": "0..6",
                                      "instructions_per_block": "0..3 (+ Block::append of another block)",
                                      "addresses": "6 per parity class, about a quarter of the instructions without address",
